@@ -2636,6 +2636,11 @@ type tupleExpr struct {
 	closing  token.Pos
 }
 
+// Pos and End make a tupleExpr safe to use where an expression is expected
+// (the embedded ast.Expr is nil; error paths call Pos/End on misplaced tuples).
+func (t *tupleExpr) Pos() token.Pos { return t.opening }
+func (t *tupleExpr) End() token.Pos { return t.closing + 1 }
+
 func (p *parser) parseLambdaExpr(allowTuple, allowCmd, allowRangeExpr bool) (x ast.Expr, isTuple bool) {
 	var first = p.pos
 	if p.tok != token.DRARROW {
